@@ -201,6 +201,8 @@ class Check:
         stats_sum = {}
         maxima = {}
         violating = []   # (case, outcome)
+        known_raw = {}
+        n_unlisted = 0
         if hasattr(prop, "prepare"):
             prop.prepare(self)
         while index < self.max_cases and time.time() < deadline:
@@ -240,8 +242,16 @@ class Check:
                 if len(samples) < 3 and oc.nontrivial:
                     samples.append(prop.sample(case, oc))
                 if oc.verdicts:
-                    violating.append((oc.case or case, oc))
-            if len(violating) >= 8:
+                    kf0 = self.kf.match(prop.ID, oc.verdicts[0])
+                    if kf0 is not None:
+                        # a listed finding: keep searching, confirm (gate + minimise) only the first two per finding
+                        known_raw[kf0["id"]] = known_raw.get(kf0["id"], 0) + 1
+                        if known_raw[kf0["id"]] <= 2:
+                            violating.append((oc.case or case, oc))
+                    else:
+                        violating.append((oc.case or case, oc))
+                        n_unlisted += 1
+            if n_unlisted >= 8:
                 break
         wall_search = time.time() - t_start
         # ---- violations: gate, minimise, classify
@@ -250,7 +260,7 @@ class Check:
         known_hit = {}
         broken = None
         seen_sigs = set()
-        for case, oc in violating[:12]:
+        for case, oc in violating[:16]:
             v0 = oc.verdicts[0]
             key = (v0.cls, canon(v0.sig))
             if key in seen_sigs:
@@ -299,6 +309,7 @@ class Check:
             "variants": variants,
             "components": prop.COMPONENTS,
             "known_findings_hit": known_hit,
+            "known_findings_raw_hits": known_raw,
             "infrastructure_problems": infra,
             "workers": self.workers,
         }
